@@ -31,16 +31,28 @@ trips; by induction on the trip count resp. the fuel), and for loops nested in l
 Fixed in /repo, the model follows: C01-D23 / D25 (4304e8f / 87ad64d; regression examples), C01-D31 (9b326d7:
 `loop_variable_live_after_loop_refused`), C01-D33 (9f69276: `non_last_return_refused`), C01-D27 (ddfea30:
 `while_break_keeps_condition_witness`), C01-D39 (0fa00ae: `while_does_not_capture_infinite_loop_witness`).
-What *is* proved, for all inputs and all operator meanings:
+What *is* proved, for all inputs and every operator meaning `S` (the refinement theorems assume of `S`: `Constant` total
+and `Identity` the identity, for control flow also `hTL hT hNat hNot hAnd`; operators are otherwise uninterpreted):
 
 * `exprs_read_only_used_vars`   — `_used_vars` is sound for expression evaluation;
 * `liveness_sound`              — the liveness equations of analysis.py (as fixed by 4304e8f) are sound for every
-                                   statement, loops and trailing breaks included (the analysis decides which
+                                   statement kind, loops and trailing breaks included, under two hypotheses: `noBrkS`
+                                   (`break` only where the converter accepts it) and `stableStmt` (the model's
+                                   fuel-bounded fixpoints converged; decided per program by the driver)
+                                   (the analysis decides which
                                    variables an `If` exports and which a `Loop` carries: an unsound live set
                                    silently drops an output); `liveness_sound_loopfree` is the unconditional
                                    special case;
 * the refutation and the regression witnesses above, each from a concrete program that is replayed on the real
-  converter (harness/corpus_c01.jsonl).
+  converter (harness/corpus_c01.jsonl);
+* one-guard restatements of model definitions, listed for reference, not as results: `static_if_never_on_a_local_name`,
+  `static_if_takes_the_outer_value`, `env_lookup_closure_first`, `env_lookup_global_otherwise`,
+  `assigned_name_never_resolved` (what carries weight there is the tie of `envLookup` / `foldStmt` to `script()`); helper:
+  `evalGraph_fuel_mono`;
+* the eager calling convention and `separate_input_attributes_from_arguments` (section "Eager" below), each theorem with
+  its scope in its doc-comment: `eager_is_python` (calls CPython accepts, `sigMatch`, distinct names),
+  `eager_arrays_entry_is_evalFunc_entry` (all-tensor signature, positional arrays only), `separate_*` (non-variadic resp.
+  one variadic input; required parameters given; no unknown keyword; `fill_defaults=False`).
 For loops with `break` below the top level (and for literal-valued variables / attribute parameters that are re-bound under
 control flow: C01-D24) the equivalence of source and emitted graph on the generated stream is *tested* (eager vs onnxruntime vs NumPy interpreter), not proved.
 -/
@@ -1010,7 +1022,8 @@ theorem eager_surplus_and_duplicate_refused_witness :
     ∧ eagerCall mkN true eagerSig eagerPy [Arg.arr 1, .arr 2] [("A", .arr 3)] = .error .badKw :=
   ⟨rfl, rfl, rfl, rfl, rfl⟩
 
-/-- **`eager_defined_only_where_python_is`** — the converse of `eager_is_python`, now the full statement (it was
+/-- **`eager_defined_only_where_python_is`** — the converse of `eager_is_python`, now without a side condition on the call
+(hypothesis `sigMatch`; stated for `_ignore_unknown_function_kwargs` off) (it was
 `…_partial` with the hypotheses "no surplus positionals" and "no keyword repeats a positional" while C01-D49 was
 open; 29a1f68 made `tag_arguments_with_signature` refuse both): with `_ignore_unknown_function_kwargs` off, for every
 signature, every positional / keyword call and every kind of value, if eager mode reaches the body of the script
